@@ -221,7 +221,13 @@ func c06Shared(c *Cfg, r *Rng) {
 		vals := map[string]*big.Int{}
 		for i, f := range j.fs {
 			res := j.r1[i]
-			c.Op("O", "bin "+f.op+" "+f.x.proto()+" "+f.y.proto(), c06ValueAns(res))
+			fname := f.name
+			if f.idx >= 0 {
+				fname = fmt.Sprintf("%s[%d]", f.name, f.idx)
+			}
+			// `shared <field> <op> <x> <y> <A> <B>`: field <field> of the program built from the
+			// operands A, B (c06SharedProgram) computes `x op y`; the model answers as for `bin`
+			c.Op("O", "shared "+fname+" "+f.op+" "+f.x.proto()+" "+f.y.proto()+" "+j.a.proto()+" "+j.b.proto(), c06ValueAns(res))
 			if res.kind == "int" && f.idx < 0 {
 				if z, e, ok := c06ParseDec(res.json); ok && e >= 0 {
 					vals[f.name] = new(big.Int).Mul(z, c06Pow10(e))
